@@ -116,6 +116,13 @@ pub fn decode_entry(entry: &str, a: &[u8], b: &[u8]) -> String {
         "message_reader" => { let mut d = DecoderV1::new(Cursor::new(a)); let mut n = 0; let mut errs = 0; for m in MessageReader::new(&mut d) { if m.is_err() { errs += 1; break; } n += 1; if n > 100000 { break; } } format!("ok msgs={} errs={} re1=_", n, errs) }
         "merge_v1" => match yrs::merge_updates_v1(&[a, b]) { Ok(v) => format!("ok - re1={}", hex(&v)), Err(e) => format!("err {}", err_class(&e)) },
         "merge_v2" => match yrs::merge_updates_v2(&[a, b]) { Ok(v) => format!("ok - re1={}", hex(&v)), Err(e) => format!("err {}", err_class(&e)) },
+        // many arguments: `a` is a sequence of (var length, update)
+        "mergen_v1" | "mergen_v2" => {
+            let mut parts: Vec<Vec<u8>> = vec![]; let mut c = Cursor::new(a);
+            loop { let n: u32 = match c.read_var() { Ok(n) => n, Err(_) => break }; match c.read_exact(n as usize) { Ok(x) => parts.push(x.to_vec()), Err(_) => break } }
+            let refs: Vec<&[u8]> = parts.iter().map(|x| x.as_slice()).collect();
+            match if entry == "mergen_v1" { yrs::merge_updates_v1(&refs) } else { yrs::merge_updates_v2(&refs) } { Ok(v) => format!("ok - re1={}", hex(&v)), Err(e) => format!("err {}", err_class(&e)) }
+        }
         "diff_v1" => match yrs::diff_updates_v1(a, b) { Ok(v) => format!("ok - re1={}", hex(&v)), Err(e) => format!("err {}", err_class(&e)) },
         "diff_v2" => match yrs::diff_updates_v2(a, b) { Ok(v) => format!("ok - re1={}", hex(&v)), Err(e) => format!("err {}", err_class(&e)) },
         "svfrom_v1" => match yrs::encode_state_vector_from_update_v1(a) { Ok(v) => format!("ok - re1={}", hex(&v)), Err(e) => format!("err {}", err_class(&e)) },
@@ -406,6 +413,24 @@ fn c09_case(seed: u64, idx: u64, md: &mut Model, rep: &mut Report) {
         let m2 = md.ask(&format!("DEC reenc_any {}", hex(&b)));
         if m2 != format!("ok {}", hex(&b)) { disag.push(json!({"kind": "reenc any", "model": m2, "bytes": hex(&b)})); }
         rep.count("anys");
+    }
+    // ---- attributed id maps: several ranges, attribute names shared between different attributions, new names turning up late
+    for _ in 0..3 {
+        let mut im = yrs::IdMap::<String>::new();
+        let names = ["insert", "delete", "format", ""]; let who = ["alice", "bob", "carol"];
+        let mut desc = vec![];
+        for _ in 0..r.range(1, 6) {
+            let c = ClientID::new(rand_client(&mut r)); let k = (rand_u64_edge(&mut r) & 0xfff_ffff) as u32; let l = r.range(1, 40) as u32;
+            let attrs: Vec<yrs::ContentAttribute<String>> = (0..r.range(1, 2)).map(|_| yrs::ContentAttribute::new(*r.pick(&names), r.pick(&who).to_string())).collect();
+            desc.push(format!("{:x}:{:x}+{:x}{:?}", c.get(), k, l, attrs.iter().map(|a| format!("{}={}", a.name(), a.value())).collect::<Vec<_>>()));
+            im.insert(yrs::block::BlockRange::new(ID::new(c, k), l), attrs);
+        }
+        let (b1, b2) = (im.encode_v1(), im.encode_v2());
+        match (yrs::IdMap::<String>::decode_v1(&b1), yrs::IdMap::<String>::decode_v2(&b2)) {
+            (Ok(x), Ok(y)) => if x != im || y != im { fail!("idmap-roundtrip", "value": desc.join(" "), "v1": hex(&b1), "v2": hex(&b2)); },
+            (a, b) => fail!("idmap-roundtrip-error", "value": desc.join(" "), "v1": format!("{:?}", a.err().map(|e| e.to_string())), "v2": format!("{:?}", b.err().map(|e| e.to_string())), "bytes_v1": hex(&b1)),
+        }
+        rep.count("attributed_id_maps");
     }
     // ---- IdSet / StateVector / Snapshot / sticky / awareness / messages
     let ds = rand_idset(&mut r); let sv = rand_sv(&mut r); let snap = Snapshot::new(sv.clone(), ds.clone());
@@ -727,6 +752,9 @@ fn c10_run(tier: &str, seed: u64, wi: usize, nw: usize) -> Report {
                                    // 300 000 consecutive Skip blocks (600 kB): the block iterator of merge_updates used to recurse once per skipped block
                                    ("merge_v1", { let mut u = vec![1u8]; u.write_var(300_000u32); u.write_var(5u64); u.write_var(0u32); for _ in 0..300_000 { u.push(10); u.push(1); } u.push(0); u }),
                                    ("svfrom_v1", { let mut u = vec![1u8]; u.write_var(300_000u32); u.write_var(5u64); u.write_var(0u32); for _ in 0..300_000 { u.push(10); u.push(1); } u.push(0); u }),
+                                   // 30 views of the same two units, as item ("ab") or as collected range, in the order GIIIGIGIGIGIIGGIGIIGIGGIIIIGIG: the
+                                   // decoder order of merge_updates was not a total order on such ties (slice::sort_by panics from 21 elements on)
+                                   ("mergen_v1", { let (i, g): (Vec<u8>, Vec<u8>) = (vec![1, 1, 1, 0, 4, 1, 1, 0x74, 2, 0x61, 0x62, 0], vec![1, 1, 1, 0, 0, 2, 0]); let mut a = vec![]; for ch in "GIIIGIGIGIGIIGGIGIIGIGGIIIIGIG".chars() { let u = if ch == 'I' { &i } else { &g }; a.write_var(u.len() as u32); a.extend_from_slice(u); } a }),
                                    // Codec/V2Proofs.v, rle_update_witness: an Rle run length of 2^31-1 (the run counter is an i32)
                                    ("update_v2", vec![0, 0, 1, 1, 0, 0, 6, 0, 255, 255, 255, 255, 7, 1, 0, 0, 0, 1, 1, 1, 1, 0, 0]),
                                    ("svfrom_v2", vec![0, 0, 1, 1, 0, 0, 6, 0, 255, 255, 255, 255, 7, 1, 0, 0, 0, 1, 1, 1, 1, 0, 0])] {
